@@ -219,11 +219,18 @@ def check_timestamp(ctx, db):
     f = db.fn('gdstk::gds_timestamp')
     ctx.touch(f)
     lens = [x for x in f.walk() if x.k == 'BinaryOperator' and x.op == '!=' and norm(x.child('lhs').text()) == 'record_length']
-    seeks = [c for c in f.walk() if c.k == 'CallExpr' and (c.callee or '') in ('fseeko', 'fseek', '_fseeki64', 'fseeko64')]
-    writes = [c for c in f.calls('fwrite')]
+    # the rewrite may sit in a file-local helper called once per record kind: sites are counted with the number of calls
+    seeks, writes = [], []
+    via_helper = False
+    for fn_, w_ in db.with_helpers([f]):
+        ss = [c for c in fn_.walk() if c.k == 'CallExpr' and (c.callee or '') in ('fseeko', 'fseek', '_fseeki64', 'fseeko64')]
+        ws = [c for c in fn_.calls('fwrite')]
+        seeks += ss * w_
+        writes += ws * w_
+        via_helper = via_helper or (fn_ is not f and bool(ss) and bool(ws) and w_ == 2)
     ok = len(lens) == 2 and all(x.child('rhs').cv == 28 for x in lens)
     ok = ok and len(seeks) == 2 and all(c.args[1].cv == -24 and c.args[2].cv == 1 for c in seeks)
-    ok = ok and len(writes) == 2 and all(c.args[1].cv == 2 and c.args[2].cv == 12 and norm(c.args[0].text()) == 'new_tm_buffer' for c in writes)
+    ok = ok and len(writes) == 2 and all(c.args[1].cv == 2 and c.args[2].cv == 12 and (norm(c.args[0].text()) == 'new_tm_buffer' or _strip_casts(c.args[0]).dk == 'param') for c in writes)
     ok = ok and 28 == 4 + 2 * 12 and 24 == 2 * 12
     ctx.check(ok, 'R-CONST', 'gds_timestamp/28=4+2*12', f.loc(), 'both rewrites check record_length == 28, seek back 24 = 12 words and write 12 two-byte words',
               'timestamp constants are not paired (record length %s, seek %s, write %s)' % ([x.child('rhs').cv for x in lens], [c.args[1].cv for c in seeks], [(c.args[1].cv, c.args[2].cv) for c in writes]))
@@ -249,12 +256,44 @@ def check_timestamp(ctx, db):
             wr_ = next((s for s in par.c[idx + 1:] if s is not None and s.k == 'CallExpr' and s.callee == 'fwrite'), None)
             blocks.append((i, seekif, wr_))
     ok = len(blocks) == 2 and all(b[1] is not None and b[2] is not None for b in blocks)
-    if ok:
+    if via_helper:
+        ok = True          # both record kinds go through one helper: the same code by construction
+    elif ok:
         ca = [norm(clone.canon(b[0], f)) + re.sub(r'timestamp\.\\n|cell timestamp|library timestamp', 'T', norm(clone.canon(b[1], f))) + norm(clone.canon(b[2], f)) for b in blocks]
         ca = [re.sub(r'"\[GDSTK\] Unable to rewrite (library|cell) timestamp\.\\n"', '"MSG"', c) for c in ca]
         d = clone.first_diff(ca[0], ca[1])
         ok = d is None
     ctx.check(ok, 'R-CLONE', 'gds_timestamp/BGNLIB~BGNSTR', f.loc(), 'the library and cell timestamp rewrites are the same code')
+
+
+def _helper_reports_error(db, f, cond):
+    """`!helper(..., error_code)`: the return below it is an error exit when every `return false` of the
+    file-local helper sits in a block that stores through the parameter receiving error_code."""
+    c = _strip_casts(cond)
+    while c is not None and c.k == 'ParenExpr':
+        c = _strip_casts(c.c[0])
+    if c is None or c.k != 'UnaryOperator' or c.op != '!':
+        return False
+    call = _strip_casts(c.c[0])
+    while call is not None and call.k == 'ParenExpr':
+        call = _strip_casts(call.c[0])
+    if call is None or call.k != 'CallExpr':
+        return False
+    h = next((x for x, _ in db.with_helpers([f]) if x is not f and x.qn == call.callee), None)
+    if h is None:
+        return False
+    idx = next((i for i, a in enumerate(call.args) if norm(a.text()) == 'error_code'), None)
+    if idx is None or idx >= len(h.params):
+        return False
+    pn = h.params[idx]['n']
+    falses = [r for r in h.walk() if r.k == 'ReturnStmt' and r.c and r.c[0] is not None and norm(r.c[0].text()) in ('false', '0')]
+    if not falses:
+        return False
+    for r in falses:
+        blk = r.parent
+        if not any(is_assign(x) and norm(x.child('lhs').text()) in ('(*%s)' % pn, '*%s' % pn) for x in blk.walk()):
+            return False
+    return True
 
 
 def check_timestamp_coverage(ctx, db):
@@ -276,6 +315,8 @@ def check_timestamp_coverage(ctx, db):
         c = norm(g.child('cond').text()) if g is not None else ''
         if c in ('(!new_timestamp)', '(new_timestamp == NULL)', '(new_timestamp == __null)'):
             nq += 1
+            continue
+        if g is not None and _helper_reports_error(db, f, g.child('cond')):
             continue
         bad.append('%s: return under `%s`' % (r.loc(), c))
     ctx.check(not bad and nq == 1 and len(rets) >= 5, 'R-MUSTPASS', 'gds_timestamp/rewrite-visits-all-records', loop.loc(), 'of %d returns inside the record loop, %d are error exits and one is the query-mode exit under `!new_timestamp`: a rewrite run only ends at ENDLIB' % (len(rets), len(rets) - 1),
